@@ -57,7 +57,7 @@ def obligations(tier, seed):
     add('btcdeb/-f-second-name-127', kind='main', args=[('lit', '-f+NULLFAIL,-' + 'B' * 127), ('lit', '[OP_1]')], tty=(1, 0, 1))
     for n in (508, 509, 520): add('btcdeb/script-push-%d-bytes' % n, kind='main', args=[('lit', '[0x' + 'ab' * n + ']')], tty=(1, 0, 1))          # the listing line of a long push (fixed line buffer in main())
     add('btcdeb/empty-stdin', kind='main', args=[], tty=(0, 1, 1), stdin=[])
-    if tier != 'quick': add('btcdeb/stdin-sym', kind='main', args=[], tty=(0, 1, 1), stdin='sym3', timeout_s=1500)
+    if tier != 'quick': add('btcdeb/stdin-sym', kind='main', args=[], tty=(0, 1, 1), stdin='sym2', timeout_s=1700)          # 3 symbolic stdin characters exceed 1500 s
     add('btcdeb/-s-sym', kind='main', args=[('pref', '-s', 2), ('lit', '[OP_1]')], tty=(1, 0, 1))
     add('btcdeb/-P-sym', kind='main', args=[('pref', '-P', 3), ('lit', '[OP_1]')], tty=(1, 0, 1))
     # --- inconsistent transactions
@@ -132,7 +132,7 @@ def run(E, ob):
             elif a[0] == 'sym': cs = sc(a[1], 'a%d_' % i); assume += [c != 0 for c in cs] + [cs[0] != 45]; argv.append(cs); syms += cs
             elif a[0] == 'pref': cs = sc(a[2], 'a%d_' % i); assume += [c != 0 for c in cs]; argv.append(list(a[1].encode()) + cs); syms += cs
         stdin = ob.get('stdin')
-        if stdin == 'sym3': cs = sc(3, 'in'); assume += [z3.And(c != 0, c != 10) for c in cs]; stdin = cs + [10]; syms += cs
+        if stdin in ('sym3', 'sym2'): cs = sc(int(stdin[3]), 'in'); assume += [z3.And(c != 0, c != 10) for c in cs]; stdin = cs + [10]; syms += cs
         fin = maindeb.run_main(E, argv, ob['tty'], stdin, assume)
         fin = [f for f in fin]
         for f in fin:
@@ -201,7 +201,7 @@ def replay(lib, ob, cex):
         argv = cex.get('argv') or []
         cmd = [exe] + [bytes(a).decode('latin1') for a in argv[1:]]
         stdin = ob.get('stdin')
-        if stdin == 'sym3': stdin = bytes(cex['syms'][-3:]) + b'\n'
+        if stdin in ('sym3', 'sym2'): stdin = bytes(cex['syms'][-int(stdin[3]):]) + b'\n'
         elif stdin is not None: stdin = bytes(stdin)
         rc, out, err = runtool.run(cmd, stdin_tty=bool(ob.get('tty', (1, 0, 1))[0]), stdout_tty=bool(ob.get('tty', (1, 0, 1))[1]), stdin_data=stdin)
         bad = rc is None or rc < 0
